@@ -123,6 +123,9 @@ func (q *searcher) checkPending(op string) {
 		}
 		seen[t.Hash] = true
 	}
+	if len(rec) > q.ownLimit() {
+		q.report("pending-over-limit", fmt.Sprintf("%d pending with limit %d after %s", len(rec), q.ownLimit(), op))
+	}
 	if w.pool.TxNum() != len(rec) {
 		q.report("pending-corrupt", fmt.Sprintf("TxNum=%d but %d received after %s", w.pool.TxNum(), len(rec), op))
 	}
@@ -236,7 +239,28 @@ func (q *searcher) opPack() []*types.Transaction {
 		return nil
 	}
 	q.checkPack(p)
-	return p
+	// retention / history: the caller scribbles over the returned slice (the chain sorts it in place); a second
+	// call must give the same batch again (PackForCast is read-only for the pool)
+	want := make([]*types.Transaction, len(p))
+	copy(want, p)
+	for i, j := 0, len(p)-1; i < j; i, j = i+1, j-1 {
+		p[i], p[j] = p[j], p[i]
+	}
+	for i := range p {
+		if i%2 == 0 {
+			p[i] = nil
+		}
+	}
+	var p2 []*types.Transaction
+	hx.Guard(func() string { p2 = q.s.w.Pack(); return "ok" })
+	same := len(p2) == len(want)
+	for i := 0; same && i < len(want); i++ {
+		same = p2[i] == want[i]
+	}
+	if !same {
+		q.report("pack-not-repeatable", fmt.Sprintf("PackForCast called twice on an unchanged pool returned different batches (%d then %d transactions), the first result having been modified by the caller in between", len(want), len(p2)))
+	}
+	return want
 }
 
 func (q *searcher) opMark(b block) bool {
@@ -264,10 +288,42 @@ func (q *searcher) opMark(b block) bool {
 	return true
 }
 
+// ownLimit: the harness' own notion of the pending limit of the current script (never read back from the
+// pool: a regression in IsFull/TxNum/limit must not be able to re-label a loss as the recorded finding).
+func (q *searcher) ownLimit() int {
+	if q.s.w.limit > 0 {
+		return q.s.w.limit
+	}
+	return 50000
+}
+
 func (q *searcher) opUnmark(b block) {
 	w := q.s.w
-	full := w.pool.IsFull()
-	room := service.VerifPoolLimit(w.pool) - w.pool.TxNum()
+	before := map[common.Hash]bool{}
+	nBefore := 0
+	for _, t := range w.pool.GetReceived() {
+		before[t.Hash] = true
+		nBefore++
+	}
+	// which of the block's transactions cannot fit: the ones pushed after the container reached its limit
+	capacity := q.ownLimit() - nBefore
+	if capacity < 0 {
+		capacity = 0
+	}
+	expectedLost := map[common.Hash]bool{}
+	seen := map[common.Hash]bool{}
+	k := 0
+	for _, id := range b.tids {
+		h := w.txs[id].Hash
+		if before[h] || seen[h] {
+			continue
+		}
+		seen[h] = true
+		if k >= capacity {
+			expectedLost[h] = true
+		}
+		k++
+	}
 	q.line("unmark " + idList(b.tids) + " " + idList(b.eids))
 	res := hx.Guard(func() string { w.UnMark(b.tids, b.eids); return "ok" })
 	q.evals++
@@ -288,10 +344,10 @@ func (q *searcher) opUnmark(b block) {
 			q.report("unmark-still-executed", h.String()+" still has an executed record after its block was removed")
 		}
 		if !pend[h] {
-			if full || room < len(b.tids) {
-				q.report("unmark-lost-full-pool", fmt.Sprintf("%s neither pending nor executed after its block was removed (container full: %d/%d)", h.String(), w.pool.TxNum(), service.VerifPoolLimit(w.pool)))
+			if expectedLost[h] {
+				q.report("unmark-lost-full-pool", fmt.Sprintf("%s neither pending nor executed after its block was removed (container full: %d pending before, limit %d, block re-adds %d)", h.String(), nBefore, q.ownLimit(), k))
 			} else {
-				q.report("unmark-lost", h.String()+" neither pending nor executed after its block was removed")
+				q.report("unmark-lost", fmt.Sprintf("%s neither pending nor executed after its block was removed although the container had room (%d pending before, limit %d)", h.String(), nBefore, q.ownLimit()))
 			}
 		}
 	}
@@ -490,12 +546,148 @@ func (q *searcher) bigPack() {
 	}
 }
 
+// reqMixExhaustive: every combination of three transactions of one sender with RequestId in {0, 7} and nonce in
+// {0,1,2}, state nonce 0 and 1 (nonce-checked and gate transactions mixed; duplicates and gaps included).
+func (q *searcher) reqMixExhaustive() {
+	s := q.s
+	q.onChain = map[common.Hash]int{}
+	var op string
+	hx.Guard(func() string { op = s.w.Reset(true, true, true, true, 0); return "" })
+	s.all, s.chain = nil, nil
+	srcs := canonicalSources(s.r)
+	for sigma := uint64(0); sigma < 2; sigma++ {
+		for code := 0; code < 216; code++ {
+			q.hist = []string{op, fmt.Sprintf("nonce %s %d", hx.Hex([]byte(srcs[0])), sigma)}
+			s.w.SetNonce(srcs[0], sigma)
+			var ids []int
+			c := code
+			for k := 0; k < 3; k++ {
+				v := c % 6
+				c /= 6
+				req := uint64(0)
+				if v >= 3 {
+					req = 7
+				}
+				id, l := s.w.NewTx(s.r.Bytes(32), srcs[0], uint64(v%3), req, 0)
+				q.line(l)
+				ids = append(ids, id)
+				q.line("add " + strconv.Itoa(id))
+				s.w.Add(id)
+			}
+			q.opPack()
+			s.w.Mark(nil, nil, ids)
+			for _, i := range ids {
+				delete(s.w.ids, s.w.txs[i])
+				delete(s.w.txs, i)
+			}
+		}
+	}
+}
+
+// cutBoundary: exactly K packable transactions for K around the per-block limit, in every mix of
+// nonce-checked in-sequence transactions (sorted first) and gate transactions (RequestId != 0, sorted last),
+// so that the 200th / 201st element is of either kind.
+func (q *searcher) cutBoundary() {
+	s := q.s
+	for _, K := range []int{199, 200, 201, 202} {
+		for _, a := range []int{0, 1, 100, K - 1, K} {
+			q.onChain = map[common.Hash]int{}
+			var op string
+			hx.Guard(func() string { op = s.w.Reset(true, true, true, true, 0); return "" })
+			q.hist = []string{op, fmt.Sprintf("# %d packable: %d nonce-checked in sequence + %d gate transactions", K, a, K-a)}
+			s.all, s.chain = nil, nil
+			srcs := canonicalSources(s.r)
+			s.srcs = srcs
+			for i := 0; i < K; i++ {
+				var id int
+				var l string
+				if i < a {
+					id, l = s.w.NewTx(s.r.Bytes(32), srcs[0], uint64(i), 0, 0)
+				} else {
+					id, l = s.w.NewTx(s.r.Bytes(32), srcs[1+i%3], uint64(s.r.Intn(5)), uint64(1000+i), 0)
+				}
+				q.line(l)
+				s.all = append(s.all, id)
+				q.line("add " + strconv.Itoa(id))
+				s.w.Add(id)
+			}
+			p := q.opPack()
+			// what was packed goes on the chain; the rest must come out with the next pack, not the same again
+			var ids []int
+			for _, t := range p {
+				if id, ok := s.w.ids[t]; ok {
+					ids = append(ids, id)
+				}
+			}
+			if len(ids) > 0 {
+				b := block{rids: ids, tids: append([]int{}, ids...)}
+				if q.opMark(b) {
+					q.opPack()
+					q.opUnmark(b)
+					q.opPack()
+				}
+			}
+		}
+	}
+}
+
+// limitBoundary: pending limit L with L-1, L, L+1 submissions, then a block of one or two transactions is
+// marked, the freed room is (partly) refilled and the block is removed again.
+func (q *searcher) limitBoundary() {
+	s := q.s
+	for _, L := range []int{1, 2, 3, 7} {
+		for _, n := range []int{L - 1, L, L + 1} {
+			for refill := 0; refill <= 2; refill++ {
+				q.onChain = map[common.Hash]int{}
+				var op string
+				hx.Guard(func() string { op = s.w.Reset(true, true, true, true, L); return "" })
+				q.hist = []string{op}
+				s.all, s.chain = nil, nil
+				srcs := canonicalSources(s.r)
+				var ids []int
+				for i := 0; i < n+refill; i++ {
+					id, l := s.w.NewTx(s.r.Bytes(32), srcs[i%5], 0, uint64(1+i), 0)
+					q.line(l)
+					s.all = append(s.all, id)
+					ids = append(ids, id)
+				}
+				for _, id := range ids[:n] {
+					q.opAdd(id)
+				}
+				p := q.opPack()
+				if len(p) == 0 {
+					continue
+				}
+				var bl []int
+				for _, t := range p {
+					if id, ok := s.w.ids[t]; ok && len(bl) < 2 {
+						bl = append(bl, id)
+					}
+				}
+				b := block{rids: bl, tids: append([]int{}, bl...)}
+				if !q.opMark(b) {
+					continue
+				}
+				for _, id := range ids[n:] {
+					q.opAdd(id)
+				}
+				q.opUnmark(b)
+				q.opPack()
+			}
+		}
+	}
+}
+
 func runSearch(a map[string]string, pool service.TransactionPool) {
 	r := hx.NewRng(hx.SeedFromEnv() ^ 0x5ea7c4)
 	s := &script{w: newWorld(pool), r: r}
 	q := &searcher{s: s, found: map[string]bool{}}
 	n := hx.ArgInt(a, "histories", 40)
+	// deterministic small-scope families first, random histories afterwards
 	q.nonceExhaustive()
+	q.reqMixExhaustive()
+	q.cutBoundary()
+	q.limitBoundary()
 	for i := 0; i < n; i++ {
 		limit := 0
 		if r.Chance(1, 4) {
